@@ -13,7 +13,7 @@ import sys
 import numpy as np
 
 from simkit.core import (EventLog, HarnessError, PlanTimeout, add_violation, bump, new_result, use_repo)
-from simkit.seams import OsShim, Seams, SimCrash, SimDisk, VirtualClock
+from simkit.seams import OsShim, Seams, SimCrash, SimDisk, SimInterrupt, VirtualClock
 
 use_repo()
 from pyphysim.simulations import parameters as P_mod   # noqa: E402
@@ -579,7 +579,7 @@ class World:
                     if f.get("action", "kill_soft") == "kill_hard":
                         self.disk.dead = True
                     self.log.add("FAULT", f.get("action"), "line", where)
-                    raise SimCrash("kill at line event %d (%s)" % (seams.line_n, where))
+                    raise (SimCrash if f.get("action", "kill_soft") == "kill_hard" else SimInterrupt)("kill at line event %d (%s)" % (seams.line_n, where))
             return local
 
         def glob(frame, event, arg):
